@@ -208,7 +208,10 @@ def rule_cap_zero_sql(program, ctx):
     for st in walk_no_nested(pl):
         if isinstance(st, ast.If) and ".limit" in ast.unparse(st.test):
             t = ast.unparse(st.test)
-            if re.fullmatch(r"\w+\.limit is (not )?None", t):
+            core = st.test
+            while isinstance(core, ast.UnaryOp) and isinstance(core.op, ast.Not):
+                core = core.operand
+            if re.fullmatch(r"\w+\.limit is (not )?None", ast.unparse(core)):
                 ctx.ok(rid0, st, f"`{t}`")
             else:
                 ctx.bad(finding_at(P, rid0, st, f"`{t}`: truthiness test on the client's limit (0 is a legal limit)"))
